@@ -139,7 +139,7 @@ def body(c):
     y = to_tt(rng, Y, dims, m, 'ttsvd' if c['rep'] in ('preorth', 'orthonormal') else c['rep'])
     snaps = [(t, build.snapshot(t)) for t in (x, y)]
     f = tdmd.tdmd_exact if c['variant'] == 'exact' else tdmd.tdmd_standard
-    ev, modes = f(x, y, threshold=c['threshold'], ortho_l=c['flags'][0], ortho_r=c['flags'][1])
+    ev, modes = f(x, y, threshold=np.float64(c['threshold']) if c['seed'] % 3 == 0 else c['threshold'], ortho_l=c['flags'][0], ortho_r=c['flags'][1])
     for t, sn in snaps:
         build.require_unchanged(t, sn, 'input of tdmd_' + c['variant'])
     ev = np.asarray(ev)
